@@ -163,6 +163,28 @@ class C05A(DevProp):
                     ev.append({"t": "a", "sub": "", "code": code, "val": v})
                 if rng.random() < 0.2:
                     ev += tap(63)
+            if i % 2 == 1:
+                # a second mapping binding the same axes differently (deadzone_at_center toggled on min-0 axes, flip toggled, other
+                # controllers, the pitch-bend axis as a plain controller): what is derived from one mapping must not survive a switch
+                import copy
+                m2 = copy.deepcopy(cfg["mappings"][0])
+                m2["name"] = "M1"
+                for a2 in m2["analog"]:
+                    a2["flip"] = not a2["flip"]
+                    if mn == 0:
+                        a2["dzc"] = not a2["dzc"]
+                    if a2["type"] == "cc":
+                        a2["cc"], a2["ccneg"] = (a2["cc"] + 40) % 120, (a2["ccneg"] + 41) % 120
+                    elif a2["type"] == "pitch_bend":
+                        a2["type"], a2["cc"] = "cc", 77
+                cfg["mappings"].append(m2)
+                cfg["actions"] += [{"code": 65, "action": "mapping_up"}, {"code": 66, "action": "mapping_down"}]
+                out = []
+                for j, e in enumerate(ev):
+                    out.append(e)
+                    if j % 9 == 4:
+                        out += tap(65) if (j // 9) % 2 == 0 else tap(66)
+                ev = out + tap(65) + ev[:25] + [k(65, 1), k(66, 1), k(65, 0), k(66, 0)] + ev[:25]
             # an up/down pair held by keys while the axes move (the action axis consults the pair detection first)
             ev += [k(59, 1), k(60, 1)] + [{"t": "a", "sub": "", "code": code, "val": v} for v in (mx, mn, (mn + mx) // 2) for code in (agen.ABS_RY, agen.ABS_RX, agen.ABS_X)] + [k(59, 0), k(60, 0)]
             cases.append({"cfg": cfg, "abs": absl, "events": ev, "tag": "axes[%d,%d]" % (mn, mx)})
